@@ -944,6 +944,17 @@ theorem cmpLt_cases (va vb : Str) (h : cmpLt va vb = true) : compareVersion va v
 
 /-! ## chains -/
 
+/-- a laser with an element has a calibration entry (`Laser.ok` ties the two key lists) -/
+theorem cal_nonempty (L : Laser) (hne : (!L.fields.isEmpty) = true) (hkeys : keys L.cal = keys L.fields) :
+    L.cal.isEmpty = false := by
+  cases hc : L.cal with
+  | nil =>
+    rw [hc] at hkeys
+    cases hf : L.fields with
+    | nil => simp [hf] at hne
+    | cons a b => simp [hf, keys] at hkeys
+  | cons a b => rfl
+
 theorem ok_with_info (L : Laser) (X : Info) (hL : L.ok = true) (hX : noNulEnd (packInfoRaw X) = true) :
     ({ L with info := X } : Laser).ok = true := by
   simp only [Laser.ok, Bool.and_eq_true] at hL ⊢
@@ -982,5 +993,151 @@ theorem generations_good (fl : Rat → Rat) (p : PathInfo) (ver time : Str)
     have := ih (nextInfo p X) (good_next p ver X g)
     rw [nextInfo_idem] at this
     exact this
+
+/-! ## versions: the loader's comparison meets `compareSpec` -/
+
+theorem parseNat_eq (s : Str) : parseNat s = if isNum s then .ok (numVal s) else .error .valueError := by
+  unfold parseNat isNum numVal
+  by_cases h : s ≠ [] ∧ s.all Char.isDigit = true
+  · have : (!s.isEmpty && s.all Char.isDigit) = true := by
+      obtain ⟨h1, h2⟩ := h
+      cases s with
+      | nil => exact absurd rfl h1
+      | cons a b => simpa using h2
+    rw [if_pos h, if_pos this]; rfl
+  · have : ¬ ((!s.isEmpty && s.all Char.isDigit) = true) := by
+      intro hh
+      apply h
+      cases s with
+      | nil => simp at hh
+      | cons a b => exact ⟨by simp, by simpa using hh⟩
+    rw [if_neg h, if_neg this]; rfl
+
+theorem cmpComponents_eq_spec (xs ys : List Str) :
+    cmpComponents xs ys =
+      match (xs.zip ys).find? decisive with
+      | none => .ok 0
+      | some ab =>
+        if isNum ab.1 && isNum ab.2 then .ok (if numVal ab.1 > numVal ab.2 then 1 else -1)
+        else .error .valueError := by
+  induction xs generalizing ys with
+  | nil => simp [cmpComponents]; rfl
+  | cons x xs ih =>
+    cases ys with
+    | nil => simp [cmpComponents]; rfl
+    | cons y ys =>
+      simp only [cmpComponents, List.zip_cons_cons, List.find?_cons, parseNat_eq, decisive]
+      by_cases hx : isNum x = true
+      · by_cases hy : isNum y = true
+        · simp only [hx, hy, if_true, bind, Except.bind, Bool.and_true, Bool.true_and]
+          by_cases hgt : numVal x > numVal y
+          · have : (numVal x == numVal y) = false := by simp; omega
+            simp [hgt, this, hx, hy]; rfl
+          · by_cases hlt : numVal x < numVal y
+            · have : (numVal x == numVal y) = false := by simp; omega
+              simp [hgt, hlt, this, hx, hy]; rfl
+            · have : (numVal x == numVal y) = true := by simp; omega
+              simp only [hgt, hlt, this, if_false, Bool.not_true]
+              exact ih ys
+        · simp [hx, hy, bind, Except.bind]
+      · simp [hx, bind, Except.bind]
+
+/-! ## legacy class names -/
+
+theorem loadConfig_legacy (fl : Rat → Rat) (c : Str) (a : CfgArr) :
+    loadConfig fl (legacyOf c) a = loadConfig fl c a := by
+  unfold legacyOf
+  by_cases h1 : c = cRaster
+  · subst h1; simp [loadConfig, clsLaser, cRaster]
+  · by_cases h2 : c = cSRR
+    · subst h2
+      have : cSRR ≠ cRaster := by decide
+      simp only [if_neg this, if_true]
+      simp [loadConfig, clsLaser, clsSpot, clsSRR, cSRR]
+    · simp [h1, h2]
+
+/-- everything `load` does after the header has been read -/
+def loadRest (fl : Rat → Rat) (p : PathInfo) (f : NpzFile) (hdr : Str × Option Str) : Except Err Laser := do
+  let info ← loadInfo f hdr.1
+  let cal ← loadCal f hdr.1
+  let cls ← getOr .keyError hdr.2
+  let kc ← loadConfig fl cls f.config
+  construct kc.1 f.data cal kc.2 (finishInfo p hdr.1 info)
+
+theorem load_eq_rest (fl : Rat → Rat) (p : PathInfo) (f : NpzFile) :
+    load fl p f = loadHeader f >>= loadRest fl p f := rfl
+
+theorem loadHeader_mapCls (f : NpzFile) (g : Str → Str) :
+    loadHeader (f.mapCls g) =
+      (loadHeader f).map fun vc => (vc.1, if f.header.isSome then vc.2 else vc.2.map g) := by
+  cases hh : f.header with
+  | some h =>
+    simp only [loadHeader, NpzFile.mapCls, hh, Option.isSome, if_true]
+    cases getOr Err.keyError (dictGet (unpackInfo h) kVersion) <;> rfl
+  | none =>
+    cases hv : f.version with
+    | none => simp [loadHeader, NpzFile.mapCls, hh, hv]; rfl
+    | some v =>
+      simp only [loadHeader, NpzFile.mapCls, hh, hv, bind, Except.bind]
+      cases compareVersion v v060 with
+      | error e => rfl
+      | ok r =>
+        by_cases hr : r = -1
+        · simp [hr]; rfl
+        · cases hcl : f.cls
+          all_goals simp [hr, getOr, pure, Except.pure, Except.map]
+          all_goals rfl
+
+theorem load_legacy_class_aux (fl : Rat → Rat) (p : PathInfo) (f : NpzFile) :
+    load fl p (f.mapCls legacyOf) = load fl p f := by
+  rw [load_eq_rest, load_eq_rest, loadHeader_mapCls]
+  cases loadHeader f with
+  | error e => rfl
+  | ok vc =>
+    obtain ⟨v, oc⟩ := vc
+    simp only [Except.map, bind, Except.bind]
+    cases hs : f.header.isSome
+    · cases oc with
+      | none => rfl
+      | some c =>
+        simp only [loadRest, NpzFile.mapCls, Bool.false_eq_true, if_false, Option.map, getOr, bind, Except.bind, pure, Except.pure,
+          loadConfig_legacy]
+        rfl
+    · rfl
+
+/-! ## old layouts against `specOld` -/
+
+theorem specOld_of_cmpGe (b : Bool) (p : PathInfo) (ver : Str) (L : Laser) (h : cmpGe ver v060 = true) :
+    specOld b p ver L = .ok (if b then normaliseV06 p ver L else normalise p ver L) := by
+  obtain ⟨r, hr, hr'⟩ := cmpGe_cases _ _ h
+  rw [compareVersion, cmpComponents_eq_spec] at hr; change compareSpec ver v060 = _ at hr
+  simp [specOld, hr, hr']
+
+theorem specOld_of_not_cmpGe (b : Bool) (p : PathInfo) (ver : Str) (L : Laser) (h : cmpGe ver v060 = false) :
+    specOld b p ver L = .error .valueError := by
+  unfold cmpGe at h
+  rw [compareVersion, cmpComponents_eq_spec] at h; change (match compareSpec ver v060 with | .ok r => r != -1 | _ => false) = false at h
+  unfold specOld
+  cases hc : compareSpec ver v060 with
+  | error e => rfl
+  | ok r =>
+    have : r = -1 := by simpa [hc] using h
+    simp [this]
+
+theorem saveV06_ok (fl : Rat → Rat) (ver : Str) (L : Laser) (hl : layersOk L.kind L.layers = true) :
+    ∃ f, saveV06 fl ver L = .ok f ∧ f.header = none ∧ f.version = some (stripNul ver) := by
+  obtain ⟨d, hd, _, _⟩ := data_roundtrip L hl
+  simp only [saveV06, hd, bind, Except.bind, pure, Except.pure]
+  exact ⟨_, rfl, rfl, rfl⟩
+
+theorem saveV07_ok (fl : Rat → Rat) (ver : Str) (L : Laser) (hl : layersOk L.kind L.layers = true) :
+    ∃ f, saveV07 fl ver L = .ok f ∧ f.header = none ∧ f.version = some (stripNul ver) := by
+  obtain ⟨d, hd, _, _⟩ := data_roundtrip L hl
+  simp only [saveV07, hd, bind, Except.bind, pure, Except.pure]
+  exact ⟨_, rfl, rfl, rfl⟩
+
+theorem layersOk_of_ok (L : Laser) (h : L.ok = true) : layersOk L.kind L.layers = true := by
+  simp only [Laser.ok, Bool.and_eq_true] at h
+  exact h.1.2
 
 end Pew.Npz
